@@ -72,6 +72,18 @@ func (d *c01CoreDriver) MigrateCycle(route func(label string) string) {
 	}
 }
 
+func (d *c01CoreDriver) MigrateSnapshot() map[string]*corev1.Pod {
+	return d.gqm.GetQuotaInfoByName(extension.DefaultQuotaName).GetPodCache()
+}
+
+func (d *c01CoreDriver) MigrateOne(pod *corev1.Pod, route func(label string) string) {
+	target := route(pod.Labels[extension.LabelQuotaName])
+	if target == extension.DefaultQuotaName || d.gqm.GetQuotaInfoByName(target) == nil {
+		return
+	}
+	d.gqm.MigratePod(pod, extension.DefaultQuotaName, target)
+}
+
 func TestVerifC01CoreHistory(t *testing.T) {
 	c01Quiet()
 	rec := vk.New(t, "C01", "coreHistory")
@@ -94,4 +106,10 @@ func TestVerifC01ConcurrentBurst(t *testing.T) {
 	c01Quiet()
 	rec := vk.New(t, "C01", "coreConcurrentBurst")
 	rapid.Check(t, func(t *rapid.T) { c01RunBurst(t, rec, c01NewCoreDriver) })
+}
+
+func TestVerifC01CoreMigrateRace(t *testing.T) {
+	c01Quiet()
+	rec := vk.New(t, "C01", "coreMigrateRace")
+	rapid.Check(t, func(t *rapid.T) { c01RunMigrateRace(t, rec, c01NewCoreDriver) })
 }
